@@ -153,3 +153,12 @@ Fixpoint var_names (l : list seg) : list name :=
   | SConst _ :: r => var_names r
   | SVar n _ :: r => n :: var_names r
   end.
+
+(* str::strip_prefix *)
+Fixpoint strip_prefix (pre s : bytes) : option bytes :=
+  match pre, s with
+  | [], _ => Some s
+  | x :: pre', y :: s' => if x =? y then strip_prefix pre' s' else None
+  | _ :: _, [] => None
+  end.
+
